@@ -17,6 +17,10 @@ def all_jobs():
 def build():
     J = []
 
+    # hard instances: minisat2 and cadical run side by side (measured: each is 3-5x faster than the other on some of them)
+    PORTFOLIO = {"_binson_to_string_cb", "binson_parser_get_raw", "binson_parser_verify", "_process_one",
+                 "binson_parser_leave_object", "binson_parser_leave_array"}
+
     def e1(fn, props, harness=HP, replace=(), unwind=None, loop=False, timeout=300, mem=8, tier="quick",
            defs=(), note="", name=None, extra=(), expect_fail=()):
         args = ["--slice-formula"]
@@ -25,7 +29,21 @@ def build():
         args += list(extra)
         J.append(Job(name or ("E1/" + fn), "E1", harness, "h_" + fn, props, enforce=fn, replace=replace,
                      defs=["VC_HARNESS_OBJECTS"] + list(defs), loop_contracts=loop, cbmc_args=args, timeout=timeout, mem_gb=mem, tier=tier,
-                     note=note, expect_fail=list(expect_fail) + ["vacuity", "vacuity-true", "vacuity-false"]))
+                     note=note, expect_fail=list(expect_fail) + ["vacuity", "vacuity-true", "vacuity-false"],
+                     portfolio=fn in PORTFOLIO))
+
+    import copy as _copy
+
+    def also_thorough(name, props):
+        """The same run again, for further properties, in the thorough tier only (same goto binary: a cache hit
+        when the quick registration has run). Keeps every quick command within its time box."""
+        for x in list(J):
+            if x.name == name:
+                y = _copy.copy(x)
+                y.name = name + "/thorough-for-" + "-".join(sorted(props))
+                y.props = dict(props)
+                y.tier = "thorough"
+                J.append(y)
 
     # ---- parser leaves
     e1("_check_boundary", {"C01": "*", "C02": "*", "C13": "*", "C18": "*", "C16": "*"})
@@ -68,10 +86,12 @@ def build():
     e1("binson_parser_field", LKP, defs=["VC_STUB_STRLEN"], replace=["binson_parser_field_with_length", "vc_strlen"])
     e1("binson_parser_field_ensure", LKP, defs=["VC_STUB_STRLEN"], replace=["binson_parser_field_ensure_with_length", "vc_strlen"])
     e1("binson_parser_field_ensure_with_length", LKP, replace=["binson_parser_field_with_length", "binson_parser_get_type"])
-    for md in (1, 3):
-        e1("binson_parser_get_raw", {"C01": "*", "C11": "*", "C09": "*", "C06": "*", "C18": "*", "C08": "*"}, replace=["_advance_parsing"],
-           defs=["VC_H_MD=%d" % md], name="E1/binson_parser_get_raw/md=%d" % md, timeout=1800, mem=10,
-           note="max_depth fixed to %d in this run (state array typed): enumerated, not symbolic" % md)
+    GRP = {"C01": "*", "C09": "*", "C06": "*", "C18": "*", "C08": "*"}
+    e1("binson_parser_get_raw", {"C11": "*"}, replace=["_advance_parsing"], defs=["VC_H_MD=1"], name="E1/binson_parser_get_raw/md=1",
+       timeout=2400, mem=10, note="max_depth fixed to 1 in this run (state array typed): enumerated, not symbolic; ~7-9 min: registered for the other properties in the thorough tier only")
+    also_thorough("E1/binson_parser_get_raw/md=1", GRP)
+    e1("binson_parser_get_raw", dict(GRP, C11="*"), replace=["_advance_parsing"], defs=["VC_H_MD=3"], name="E1/binson_parser_get_raw/md=3",
+       timeout=3600, mem=10, tier="thorough", note="max_depth fixed to 3 in this run (state array typed): enumerated, not symbolic")
     e1("binson_parser_string_equals", dict(GETP), defs=["VC_STUB_STRLEN"], replace=["vc_strlen", "_cmp_name"])
     e1("binson_parser_get_depth", {"C01": "*", "C06": "*", "C12": "*", "C18": "*"})
 
@@ -93,9 +113,10 @@ def build():
         e1(fn, {"C04": "*", "C09": "*", "C12": "*", "C18": "*"}, harness=HW)
 
     # ---- print callbacks (C13 / C14 / C16), abstract snprintf/printf stand-ins
-    e1("_binson_to_string_cb", {"C13": "*", "C16": "*", "C17": "*", "C18": "*"}, harness="contracts/h_printcb.c", loop=True,
+    e1("_binson_to_string_cb", {"C13": "*"}, harness="contracts/h_printcb.c", loop=True,
        defs=["BINSON_PARSER_WITH_PRINT"], replace=["_check_boundary"], timeout=3600, mem=10,
        note="snprintf under the assumed C99 contract (stubs/vc_stdio_abs.h); hex loop closed by its loop invariant and decreases clause")
+    also_thorough("E1/_binson_to_string_cb", {"C16": "*", "C17": "*", "C18": "*"})
     e1("_binson_print_cb", {"C14": "*", "C16": "*", "C17": "*", "C18": "*"}, harness="contracts/h_printcb.c", loop=True,
        defs=["BINSON_PARSER_WITH_PRINT"], timeout=1800, mem=8,
        note="printf abstracted to an event counter; hex loop closed by its loop invariant and decreases clause")
@@ -107,11 +128,13 @@ def build():
 
     # ---- step contracts of _advance_parsing (complete: the loop runs a statically known 1-2 iterations)
     STEP = {1: ("array-nesting-limit", {"C02": "*", "C01": "*"}), 2: ("object-nesting-limit", {"C02": "*", "C01": "*", "C06": "*"}),
-            3: ("next-scalar", {"C03": "*", "C10": "*", "C06": "*"}), 4: ("lookup-overshoot-rewind", {"C07": "*", "C08": "*", "C16": "*"})}
+            3: ("next-scalar", {"C03": "*"}), 4: ("lookup-overshoot-rewind", {"C07": "*", "C08": "*", "C16": "*"})}
     for sc, (nm, pr) in STEP.items():
         J.append(Job("E2/step/" + nm, "E3", "contracts/h_step.c", "h_step", pr, defs=["VC_SCEN=%d" % sc],
                      cbmc_args=["--unwind", "9", "--unwindset", "_advance_parsing.0:3", "--unwinding-assertions", "--slice-formula"], timeout=1800, mem_gb=8,
                      note="real _advance_parsing from a symbolic pre-state of one shape; the token loop provably runs <= 2 iterations (unwinding assertion), so this is COMPLETE for that shape; tokens within the first 64 bytes behind the cursor"))
+
+    also_thorough("E2/step/next-scalar", {"C10": "*", "C06": "*"})
 
     # ---- round-trip lemmas on the real encoder/decoder pair (complete: loops bounded by operand width)
     for nm in ("parse_pack", "pack_parse", "double"):
@@ -164,8 +187,9 @@ def build():
 
     # navigation / lookup / raw sequences against the reference cursor
     OPS = {"E": 1, "N": 2, "O": 3, "A": 4, "o": 5, "a": 6, "R": 7, "F": 8, "G": 9, "H": 10}
-    NAV_PROPS = {"C06": "*", "C08": "*", "C03": ["B/nav-type", "B/nav-name-span", "B/nav-integer", "B/nav-boolean",
-                 "B/nav-string-span", "B/nav-bytes-span", "B/nav-double-bits"], "C09": ["B/nav-no-error"]}
+    NAV_PROPS = {"C06": "*", "C08": "*"}
+    NAV_MORE = {"C03": ["B/nav-type", "B/nav-name-span", "B/nav-integer", "B/nav-boolean",
+                "B/nav-string-span", "B/nav-bytes-span", "B/nav-double-bits"], "C09": ["B/nav-no-error"]}
 
     def nav(seq, root, n, tier, props=None, doc=None, extra_defs=(), md=3, pinned_regular=False):
         defs = ["VC_N=%d" % n, "VC_ROOT_ARRAY=%d" % root, "VC_MD=%d" % md] + ["VC_OP%d=%d" % (i, OPS[c]) for i, c in enumerate(seq)]
@@ -183,8 +207,12 @@ def build():
         uw = ["--unwind", str(unw), "--unwindset", "binson_parser_field_with_length.0:%d,ref_field.0:%d" % (n // 3 + 2, n // 3 + 2)]
         J.append(Job("E3/" + nm, "E3", "bounded/h_nav.c", "h_nav", pr, defs=defs,
                      cbmc_args=uw + ["--unwinding-assertions", "--no-standard-checks"],
-                     timeout=3600, mem_gb=2 if doc else (22 if heavy else 13), tier=tier,
+                     timeout=3600, mem_gb=2 if doc else (22 if heavy else 16), tier=tier,
                      note="BOUNDED: all valid %s-rooted documents of exactly %d bytes x call sequence %s (E enter root, N next, O/A go_into_object/array, o/a leave_object/array, R get_raw, F/G/H field lookups); memory-safety checks are off in this tier (they are decided by E1/E2)" % ("array" if root else "object", n, seq)))
+        if doc and pinned_regular:
+            J[-1].props.update(NAV_MORE)          # pinned runs are cheap: they serve the decode / latching tags too
+        elif not doc:
+            also_thorough("E3/" + nm, NAV_MORE)
         if not doc:
             J.append(Job("E3/" + nm + "/feasible", "E3", "bounded/h_nav.c", "h_nav", {k: [] for k in pr}, defs=defs + ["VC_NO_LIB"],
                          cbmc_args=uw + ["--unwinding-assertions", "--no-standard-checks"],
@@ -192,11 +220,11 @@ def build():
 
     LK = {"C07": "*"}
     RW = {"C11": "*"}
-    quick_nav = [("ENNo", 0, 7, None), ("ENONoo", 0, 7, None), ("ENo", 0, 7, None), ("ENNa", 1, 6, None),
-                 ("ENANaNa", 1, 6, None), ("ENONoN", 1, 6, None), ("EFN", 0, 7, LK), ("ENRN", 1, 6, RW)]
+    quick_nav = [("ENNo", 0, 7, None), ("ENONoN", 1, 6, None), ("ENANaNa", 1, 6, None)]
     for seq, root, n, pr in quick_nav:
         nav(seq, root, n, "quick", pr)
-    thorough_nav = [("ENNNo", 0, 8, None), ("ENANaNo", 0, 8, None), ("ENAao", 0, 8, None), ("EFG", 0, 7, LK), ("EGF", 0, 8, LK),
+    thorough_nav = [("ENONoo", 0, 7, None), ("ENo", 0, 7, None), ("ENNa", 1, 6, None), ("EFN", 0, 7, LK), ("ENRN", 1, 6, RW),
+                    ("ENNNo", 0, 8, None), ("ENANaNo", 0, 8, None), ("ENAao", 0, 8, None), ("EFG", 0, 7, LK), ("EGF", 0, 8, LK),
                     ("EHFG", 0, 8, LK), ("EH", 0, 7, LK), ("EFGN", 0, 9, LK), ("ENRNo", 0, 7, RW), ("ENANaN", 1, 8, None),
                     ("ENAaN", 1, 8, None), ("ENRNRN", 1, 8, RW), ("ENONRNo", 0, 9, RW)]
     for seq, root, n, pr in thorough_nav:
